@@ -41,7 +41,8 @@ class CoreAdapter:
         self.cfg = config
         self.geom, self.symmetry = geom, symmetry
         self.NA0, self.NF, self.MB, self.NL = config["NA0"], config["NF"], config["MB"], config["NL"]
-        self.NA = self.NA0 + self.NF
+        self.NP0 = config.get("NP0", 0)
+        self.NA = self.NA0 + self.NP0 + self.NF
         self.layout = {a + 1: "".join(config["layout"][a]) for a in range(self.NA)}
         self.place = {a + 1: config["place"][a] for a in range(self.NA0)}
         self.blkseq = list(config["blk"])
@@ -54,7 +55,8 @@ class CoreAdapter:
         stationary = tuple(sorted(x for x in sf if sf[x]))
         w = gen_core.build_core(
             layout={a: self.layout[a] for a in range(1, self.NA0 + 1)},
-            fresh={a: self.layout[a] for a in range(self.NA0 + 1, self.NA + 1)},
+            pooled={a: self.layout[a] for a in range(self.NA0 + 1, self.NA0 + self.NP0 + 1)},
+            fresh={a: self.layout[a] for a in range(self.NA0 + self.NP0 + 1, self.NA + 1)},
             places=self.place, n_locs=self.NL, track=bool(root["track"]), stationary=stationary,
             geom=self.geom, symmetry=self.symmetry, placeholder=lambda aid: -(PLACEHOLDER_BASE + aid))
         w.err, w.exc = "", ""
@@ -76,7 +78,7 @@ class CoreAdapter:
             if n in ("Swap", "SwapMismatch"):
                 w.fh.swapAssemblies(A[a["x"]], A[a["y"]])
             elif n == "Cascade":
-                w.fh.swapCascade([A[x] for x in a["l"]])
+                w.fh.swapCascade([A[x] if x else None for x in a["l"]])  # 0 = a None entry
             elif n == "Add":
                 if a.get("how") == "own":  # the way blueprints load a core: place the locator, then add
                     before = A[a["a"]].spatialLocator
@@ -320,7 +322,10 @@ def random_call(ad, w, rng, allow_occupied):
             return {"n": "swap", "x": x, "y": y}
         if kind == "cascade" and len(core_ids) >= 2:
             k = rng.randint(2, min(4, len(core_ids)))
-            return {"n": "cascade", "l": rng.sample(core_ids, k)}
+            lst = rng.sample(core_ids, k)
+            if rng.random() < 0.35:  # findAssembly found nothing for one level: a None entry, anywhere in the list
+                lst.insert(rng.randrange(len(lst) + 1), 0)
+            return {"n": "cascade", "l": lst}
         if kind == "dswap" and core_ids and (outside or pool_ids):
             return {"n": "dswap", "i": rng.choice(outside + pool_ids), "o": rng.choice(core_ids)}
         if kind == "add" and outside:
@@ -496,7 +501,7 @@ def run(rep, tier, seed):
         check_model(rep, "FuelShuffle_mc_thorough.cfg", "coreS-depth5")
         check_model(rep, "FuelShuffle_mcT.cfg", "coreT-depth4")
     else:
-        check_model(rep, "FuelShuffle_mc.cfg", "coreS-depth4")
+        check_model(rep, "FuelShuffle_mc.cfg", "coreS-depth4")  # three of the four flag settings (all four: thorough, edges)
     rep.exhaustive = True
 
     # 2. spec -> code
@@ -504,10 +509,10 @@ def run(rep, tier, seed):
         emit_and_replay(rep, "FuelShuffle_emit.cfg", "coreS-depth3", (("hex", "full", None), ("hex", "third", 40), ("cartesian", "full", 40)), rng)
         emit_and_replay(rep, "FuelShuffle_emitT.cfg", "coreT-depth3", (("hex", "full", 100), ("hex", "third", 30), ("cartesian", "full", 30)), rng)
     else:
-        emit_and_replay(rep, "FuelShuffle_emit.cfg", "coreS-depth3", (("hex", "full", 22), ("hex", "third", 11), ("cartesian", "full", 11)), rng)
+        emit_and_replay(rep, "FuelShuffle_emit.cfg", "coreS-depth3", (("hex", "full", 8), ("hex", "third", 4), ("cartesian", "full", 4)), rng)
 
     # 3. code -> spec
-    plans = [("FuelShuffle_trace_M.cfg", "coreM-hex-full", "hex", "full", 120 if thorough else 40, 150 if thorough else 50)]
+    plans = [("FuelShuffle_trace_M.cfg", "coreM-hex-full", "hex", "full", 120 if thorough else 36, 150 if thorough else 45)]
     if thorough:
         plans += [("FuelShuffle_trace_M.cfg", "coreM-hex-third", "hex", "third", 60, 150),
                   ("FuelShuffle_trace_N.cfg", "coreN-cartesian", "cartesian", "full", 60, 250),
@@ -632,6 +637,10 @@ def mutants():
         ("stationary mismatch is not refused", FuelHandler, "_transferStationaryBlocks",
          "if [block[1] for block in a1StationaryBlocks] != [", "if False and [block[1] for block in a1StationaryBlocks] != ["),
         ("discharge=False is ignored", Core, "removeAssembly", "if discharge and self._trackAssems:", "if self._trackAssems:"),
+        ("cascade gives up at a None level instead of skipping it", FuelHandler, "swapCascade",
+         "continue", "break"),
+        ("incoming assembly leaves the pool only when tracking is on", FuelHandler, "dischargeSwap",
+         'if self.r.excore.get("sfp") is not None:', 'if self.r.core._trackAssems and self.r.excore.get("sfp") is not None:'),
     ]
 
 
